@@ -144,3 +144,34 @@ package strategy
 //@   loop 1 invariant result.IsUnpaused && !result.IsFailed ==> !result.IsPaused
 //@   loop 1 invariant !autoPause && result.IsPaused ==> old(result.IsPaused)
 //@   loop 1 invariant iter() <= len(pods)
+//@
+//@ func requeueIn
+//@   transparent
+//@ func requeuePromptly
+//@   transparent
+//@
+//@ func manageCanaryStatus
+//@   requires params != nil && params.NewStatus != nil && params.Replicaset != nil && params.Strategy != nil && params.Strategy.Canary != nil
+//@   let canary = params.Strategy.Canary
+//@   requires canary.AutoPause != nil && canary.AutoPause.Enabled != nil && canary.AutoPause.MaxRestarts != nil
+//@   requires canary.AutoFail != nil && canary.AutoFail.Enabled != nil && canary.AutoFail.MaxRestarts != nil
+//@   requires forall n *NodeItem :: (n in params.PodByNodeName) && params.PodByNodeName[n] != nil ==> params.PodByNodeName[n].Status.StartTime != nil
+//@   modifies nothing
+//@   ensures result != nil && fresh(result) && result.NewStatus != nil
+//@   ensures [C04] creates-only-on-canary-nodes: forall i int :: 0 <= i && i < len(result.PodsToCreate) ==>
+//@             exists k int :: 0 <= k && k < len(params.CanaryNodes) && result.PodsToCreate[i] == params.NodeByName[params.CanaryNodes[k]]
+//@   ensures [C01,C04] creates-only-where-no-pod-exists: forall i int :: 0 <= i && i < len(result.PodsToCreate) ==>
+//@             (result.PodsToCreate[i] in params.PodByNodeName) && params.PodByNodeName[result.PodsToCreate[i]] == nil
+//@   ensures [C06,C08] no-creation-while-paused-or-failed: result.IsPaused || result.IsFailed ==> len(result.PodsToCreate) == 0
+//@   ensures [C14] counters-ordered: 0 <= result.NewStatus.Available && result.NewStatus.Available <= result.NewStatus.Ready
+//@             && result.NewStatus.Ready <= result.NewStatus.Current && result.NewStatus.Current <= result.NewStatus.Desired
+//@   ensures [C14] desired-is-canary-node-count: result.NewStatus.Desired == len(params.CanaryNodes)
+//@   loop 1 invariant desiredPods == iter() && 0 <= availablePods && availablePods <= readyPods && readyPods <= currentPods
+//@   loop 1 invariant iter() <= len(params.CanaryNodes)
+//@   loop 1 invariant currentPods + len(podsToCreate) + len(podsToDelete) <= iter() && len(podsToCheckForRestarts) == currentPods
+//@   loop 1 invariant (len(podsToCreate) == 0 ==> cap(podsToCreate) == 0) && (len(podsToDelete) == 0 ==> cap(podsToDelete) == 0)
+//@   loop 1 invariant len(podsToCheckForRestarts) == 0 ==> cap(podsToCheckForRestarts) == 0
+//@   loop 1 invariant root(podsToCreate) != root(podsToDelete) || len(podsToCreate) == 0 || len(podsToDelete) == 0
+//@   loop 1 invariant forall j int :: 0 <= j && j < len(podsToCreate) ==> (podsToCreate[j] in params.PodByNodeName) && params.PodByNodeName[podsToCreate[j]] == nil
+//@             && exists k int :: 0 <= k && k < iter() && podsToCreate[j] == params.NodeByName[params.CanaryNodes[k]]
+//@   loop 1 invariant forall j int :: 0 <= j && j < len(podsToCheckForRestarts) ==> podsToCheckForRestarts[j] != nil && podsToCheckForRestarts[j].Status.StartTime != nil
